@@ -252,4 +252,4 @@ def cases():
 
 
 def stages(ctx):
-    return [Stage('diff', run_case, cases(), quick=700, thorough=3000)]
+    return [Stage('diff', run_case, cases(), quick=1200, thorough=3000)]
